@@ -448,8 +448,23 @@ func (w *world) execOp(ti, oi int, op *proto.Op, st *opState) {
 		optCheck("PipelineConstants", consts, optBefore)
 		if err != nil {
 			st.res.Err = err.Error()
+			// the working copy is private to this caller: elements beyond a
+			// slice's length are not part of its value (nobody else can reach
+			// them), so only the visible value is compared
+			visible := func(es []fp.Entry) []fp.Entry {
+				out := make([]fp.Entry, 0, len(es))
+				for _, e := range es {
+					if !strings.HasSuffix(e.Path, ".spare-capacity") {
+						out = append(out, e)
+					}
+				}
+				return out
+			}
 			if fp.Hash(m) != before {
-				paths, details := fp.Diff(flatBefore, fp.Flatten(m), 12)
+				paths, details := fp.Diff(visible(flatBefore), visible(fp.Flatten(m)), 12)
+				if len(paths) == 0 {
+					return
+				}
 				w.addViolation(proto.Violation{Class: "I-MUT", Task: ti, Op: oi, Kind: op.Kind, Object: w.objs[op.Mod].label, ObjID: -1000 - op.Mod,
 					Paths: paths, AtStep: simrt.Steps,
 					Detail: "a FAILED in-place resolution (" + err.Error() + ") left the caller's module altered: " + strings.Join(details, "; ")})
